@@ -82,13 +82,18 @@ OpWords(op) == CASE op = "plus" -> <<"plus", "with", "+">> [] op = "minus" -> <<
 (* comparisons: `sym` forces the symbolic family (needed for list operands and inside symbolic chains),        *)
 (* `isf` forces the `is` family (equality exists only there)                                                   *)
 IsWords == <<"is", "are", "was", "were">>
+(* the contractions of `is`: directly after a word they may be written in any letter case, independently of the word's own *)
+(* case; directly after a number or a string literal only the lower-case forms are suffixes                                 *)
+LastIsLetter(st) == st.t # "" /\ LET ch == CharAt(st.t, Len(st.t)) IN
+                                 ch \in { CharAt(UpperS, i) : i \in 1..26 } \cup { CharAt(LowerS, i) : i \in 1..26 } \cup {"~", "^"}
+SfxForms(st) == IF LastIsLetter(st) THEN <<"'s", "'re", "'S", "'RE", "'Re", "'rE">> ELSE <<"'s", "'re">>
 RCompare(st, tp, noise, op, family) ==      \* renders the operator between its operands (gaps included); family \in {"is", "sym"}
   LET useIs == family = "is"
       s1 == st
   IN IF useIs THEN
-       LET q == Pick(s1, tp, 6)           \* is are was were 's 're
+       LET q == Pick(s1, tp, 4 + Len(SfxForms(s1)))           \* is are was were 's 're ('S 'RE 'Re 'rE)
            s2 == IF q[1] < 4 THEN Word(Gap(q[2], noise), tp, IsWords[q[1] + 1])
-                 ELSE Out(q[2], IF q[1] = 4 THEN "'s" ELSE "'re")
+                 ELSE Out(q[2], SfxForms(s1)[q[1] - 3])
        IN CASE op = "eq" -> Gap(s2, noise)
             [] op = "ne" -> Gap(Kw(Gap(s2, noise), tp, "k_not"), noise)
             [] op \in {"gt", "lt"} -> Gap(Kw(Gap(Kw(Gap(s2, noise), tp, IF op = "gt" THEN "k_bigger" ELSE "k_smaller"), noise), tp, "k_than"), noise)
@@ -210,8 +215,12 @@ TopListOK(es) == es # <<>> /\ ListOK(es) /\ \A i \in 1..Len(es) : ExprOK(es[i])
 RECURSIVE StmtOK(_)
 RECURSIVE BlockOK(_)
 BlockOK(ss) == \A i \in 1..Len(ss) : StmtOK(ss[i])
+(* `let x be -5` is the compound subtraction `x -= 5`: a plain assignment whose value starts with a unary minus can only be *)
+(* written with `put`, and not at all with a list of values                                                                 *)
+RECURSIVE StartsWithNeg(_)
+StartsWithNeg(e) == CASE e.e = "un" -> e.op = "neg" [] e.e = "bin" -> StartsWithNeg(e.l) [] e.e = "idx" -> StartsWithNeg(e.a) [] OTHER -> FALSE
 StmtOK(s) ==
-  CASE s.s = "assign" -> LhsOK(s.dest) /\ TopListOK(s.vals)
+  CASE s.s = "assign" -> LhsOK(s.dest) /\ TopListOK(s.vals) /\ (s.op = "none" /\ Len(s.vals) > 1 => ~StartsWithNeg(s.vals[1]))
     [] s.s = "pnum" -> LhsOK(s.dest) /\ (s.e.e = "plit" \/ (ExprOK(s.e) /\ LeftmostIsLiteral(s.e)))
     [] s.s = "pstr" -> LhsOK(s.dest) /\ \A i \in 1..Len(s.str) : CharAt(s.str, i) \notin {"\"", "(", NL}
     [] s.s = "if" -> ExprOK(s.c) /\ BlockOK(s.th) /\ BlockOK(s.el)
@@ -246,7 +255,7 @@ RElems(st, es, first) ==
 (* decoration of a line end.  A comma can only follow a statement that cannot take it as a list / argument / parameter   *)
 (* separator; a period directly after a word, a blank-separated period anywhere except after a poetic number literal    *)
 (* (where it would be part of the literal)                                                                              *)
-EolStyles == <<"", ",", " .", " ", "\r", ";", ".", " ,">>
+EolStyles == <<"", ",", " .", " ", "\r", ";", ".", " ,", " (a" \o NL \o NL \o "b" \o NL \o ")">>   \* the last: a closing comment over three line breaks
 RECURSIVE NoListTail(_)
 NoListTail(e) == \/ e.e \in {"lit", "var", "pro"}
                  \/ (e.e = "idx" /\ NoListTail(e.k)) \/ (e.e = "roll" /\ NoListTail(e.a)) \/ (e.e = "un" /\ NoListTail(e.x))
@@ -268,6 +277,7 @@ EolChoice(st, s, k) ==      \* the style actually used for choice k
   CASE k \in {1, 7} -> IF CommaOK(s) THEN k ELSE 0
     [] k = 2 -> IF PoeticTail(s) THEN 0 ELSE k
     [] k = 6 -> IF ~PoeticTail(s) /\ st.t # "" /\ IsLetterChar(CharAt(st.t, Len(st.t))) THEN k ELSE 0
+    [] k = 8 -> IF PoeticTail(s) THEN 0 ELSE k
     [] OTHER -> k
 EolK(st, s, k) == Out(st, EolStyles[EolChoice(st, s, k) + 1] \o NL)
 Blank(st) == Out(st, NL)
@@ -299,7 +309,7 @@ RStmt(st0, tp, naming, s) ==
   CASE s.s = "assign" ->
          IF s.op = "none" /\ Len(s.vals) = 1 THEN
            LET p == Pick(st, tp, 2) IN
-           IF p[1] = 0 THEN EolK(RLhs(G(K(G(E(G(K(p[2], "k_put")), s.vals[1])), "k_into")), cx, s.dest), s, eol)
+           IF p[1] = 0 \/ StartsWithNeg(s.vals[1]) THEN EolK(RLhs(G(K(G(E(G(K(p[2], "k_put")), s.vals[1])), "k_into")), cx, s.dest), s, eol)
            ELSE EolK(E(G(K(G(RLhs(G(K(p[2], "k_let")), cx, s.dest)), "k_be")), s.vals[1]), s, eol)
          ELSE LET h == G(K(G(RLhs(G(K(st, "k_let")), cx, s.dest)), "k_be"))
                   h2 == IF s.op = "none" THEN h
@@ -307,8 +317,9 @@ RStmt(st0, tp, naming, s) ==
                              IF p[1] = 2 THEN G(Out(p[2], w[3])) ELSE G(Word(p[2], tp, w[p[1] + 1]))
               IN EolK(RList(h2, cx, s.vals, "list"), s, eol)
     [] s.s = "pnum" ->
-         LET q == Pick(RLhs(st, cx, s.dest), tp, 6)
-             h == IF q[1] < 4 THEN G(Word(G(q[2]), tp, IsWords[q[1] + 1])) ELSE G(Out(q[2], IF q[1] = 4 THEN "'s" ELSE "'re"))
+         LET l == RLhs(st, cx, s.dest)
+             q == Pick(l, tp, 4 + Len(SfxForms(l)))
+             h == IF q[1] < 4 THEN G(Word(G(q[2]), tp, IsWords[q[1] + 1])) ELSE G(Out(q[2], SfxForms(l)[q[1] - 3]))
          IN IF s.e.e = "plit" THEN EolK(RElems(h, s.e.elems, TRUE), s, eol) ELSE EolK(E(h, s.e), s, eol)
     [] s.s = "pstr" -> Out(Out(K(G(RLhs(st, cx, s.dest)), "k_says"), " " \o s.str), NL)      \* the text is taken verbatim: no decoration
     [] s.s = "if" ->
